@@ -51,7 +51,7 @@ PROPS["C17"] = {
     "runs": [{"engine": "vote"}, {"engine": "rawagent"}, {"engine": "dlrt"}],
     "sanitizers": [
         {"kind": "tsan", "engine": "vote", "args": ["--scale", "0.05", "--only", "threaded"], "quick": True, "timeout_s": 1800},
-        {"kind": "miri", "tier": "quick", "engine": "vote", "args": ["--scale", "0.002", "--threads", "1", "--only", "threaded"], "timeout_s": 3600},
+        {"kind": "miri", "tier": "quick", "engine": "vote", "args": ["--scale", "0.002", "--threads", "1", "--watchdog", "3000", "--only", "threaded"], "timeout_s": 3600},
     ],
     "assumptions": ["a dropped voter counts as voting even if it had rescinded", "at most 3 parties (the only in-tree constructors)", "runtime level: a task that has not noticed that its last consumer left (silent lane) has no vote outstanding, so a downlink runtime that stays up on a silent lane is not judged; 'will see the runtime stop' is decided as bounded progress: stopped within five timeouts of virtual time"],
 }
@@ -111,7 +111,7 @@ PROPS["C12"] = {
     "runs": [{"engine": "bytechan"}],
     "sanitizers": [
         {"kind": "tsan", "engine": "bytechan", "args": ["--scale", "1", "--only", "threaded"], "quick": True, "timeout_s": 1800},
-        {"kind": "miri", "tier": "quick", "engine": "bytechan", "args": ["--scale", "0.002", "--threads", "1"], "timeout_s": 3600},
+        {"kind": "miri", "tier": "quick", "engine": "bytechan", "args": ["--scale", "0.002", "--threads", "1", "--watchdog", "3000"], "timeout_s": 3600},
     ],
     "assumptions": ["single reader and single writer (enforced by ownership)", "after shutdown with the writer alive both EOF and Pending are accepted before the drop", "a watchdog timeout in the threaded part is inconclusive; the deterministic parts decide"],
 }
@@ -159,7 +159,7 @@ PROPS["C20"] = {
     "runs": [{"engine": "uplinks"}, {"engine": "rawagent"}],
     "sanitizers": [
         {"kind": "tsan", "engine": "uplinks", "args": ["--scale", "0.05", "--only", "counters-threads"], "quick": True, "timeout_s": 1800},
-        {"kind": "miri", "tier": "quick", "engine": "uplinks", "args": ["--scale", "0.05", "--threads", "1", "--only", "counters-threads"], "timeout_s": 3600},
+        {"kind": "miri", "tier": "quick", "engine": "uplinks", "args": ["--scale", "0.05", "--threads", "1", "--watchdog", "3000", "--only", "counters-threads"], "timeout_s": 3600},
     ],
     "assumptions": ["registration of a reporter only on link-free lanes (as the runtime does)", "remotes use unique routing ids"],
 }
@@ -207,7 +207,7 @@ PROPS["C11"] = {
     "runs": [{"engine": "remote"}],
     "sanitizers": [
         {"kind": "tsan", "engine": "remote", "args": ["--scale", "0.05", "--only", "multi-reader"], "quick": True, "timeout_s": 1800},
-        {"kind": "miri", "tier": "quick", "engine": "remote", "args": ["--scale", "0.002", "--threads", "1", "--only", "multi-reader"], "timeout_s": 3600},
+        {"kind": "miri", "tier": "quick", "engine": "remote", "args": ["--scale", "0.002", "--threads", "1", "--watchdog", "3000", "--only", "multi-reader"], "timeout_s": 3600},
     ],
     "assumptions": ["names and bodies are valid UTF-8", "harness readers always read (stalls <= 20 ms virtual)", "socket buffers 64 B - 64 kB, registration buffers 1-8"],
 }
@@ -220,7 +220,7 @@ PROPS["C10"] = {
     "text": "Every encoder/decoder pair of swimos_agent_protocol::encoding and swimos_messages::protocol (46 instantiations incl. typed bodies as Value and Text) is driven with hostile 1-6 message streams decoded at every single split point, byte-wise, under random multi-splits and truncated with EOF: the decoded sequence, the per-message byte boundaries and the delivery of each message as soon as its last byte has arrived must match what was encoded; a valid stream never errors or panics. Tags and length prefixes are mutated: outcomes must be Err, or messages that re-encode to the bytes consumed (raw codecs), or frames consistent with the length prefixes present (typed codecs); panics are violations; allocation aborts are detected in child processes.",
     "note": "Trusted base: the reference wire layouts in engines/codec/src/wire.rs (self-checked against every real frame; a mismatch makes the case inconclusive). Recon bodies that a one-shot print/parse does not round-trip are replaced (C09's concern). Panics are observed with overflow checks on. For streams over 2 KiB interior split points are sampled.",
     "runs": [{"engine": "codec"}],
-    "sanitizers": [{"kind": "miri", "tier": "quick", "engine": "codec", "args": ["--scale", "0.002", "--threads", "1"], "timeout_s": 3600}],
+    "sanitizers": [{"kind": "miri", "tier": "quick", "engine": "codec", "args": ["--scale", "0.002", "--threads", "1", "--watchdog", "3000"], "timeout_s": 3600}],
     "assumptions": ["mutations touch header fields only", "behaviour after the first Err is not examined", "a hang inside one decode call shows only as a watchdog exit (inconclusive)"],
 }
 
@@ -232,7 +232,7 @@ PROPS["C09"] = {
     "text": "The three Recon printers, parse_recognize, RecognizerDecoder and WithLenRecognizerDecoder are run on about 40k generated inputs per quick run (2M thorough): 33 typed (built-in and derived) types must round-trip through all printers; every model value the parser itself produced must come back exactly (floats by bits) through all printers and arbitrary values must reach a fixed point; the incremental decoders fed the same bytes cut at every single position (including inside the length header and inside multi-byte characters), one byte at a time and at random multi-cuts must give exactly the one-shot result; byte-mutated input (including invalid UTF-8) must never panic, must finish within a bounded number of decode calls and must not corrupt the following well-formed frame. The form engine's printer-faithfulness observations are recorded under this property as well.",
     "note": "Trusted base: the generators and the greedy shrinker (a shrunk candidate only counts as parser-produced when the real parser maps its explicit rendering to exactly that value); the one-shot parser is the reference for chunking. A hang inside one call shows only as the runner's watchdog (inconclusive). Depth limited to 64 as the property says (200/1000 only as an opt-in probe).",
     "runs": [{"engine": "recon", "args": ["--scale", "4"]}, {"engine": "form", "args": ["--scale", "4"]}],
-    "sanitizers": [{"kind": "miri", "tier": "quick", "engine": "recon", "args": ["--scale", "0.002", "--threads", "1"], "timeout_s": 5400}],
+    "sanitizers": [{"kind": "miri", "tier": "quick", "engine": "recon", "args": ["--scale", "0.002", "--threads", "1", "--watchdog", "3000"], "timeout_s": 5400}],
     "assumptions": ["finite floats for typed values", "generated grammar and byte mutations cover the tokenizer branches"],
 }
 
